@@ -624,3 +624,74 @@ def _no_cycle_without(b, h, body, prog):
             seen.add((n, f))
             dq.append((n, f))
     return True
+
+
+def flag_reach(b, start, avoid, within=None):
+    """positions reachable from `start` without entering a position of `avoid`, pruning the branches that contradict boolean flags
+    which are only ever assigned constants (see _no_cycle_without).  `within`: optional set of blocks the walk must stay in;
+    positions outside are returned (as reached) but not expanded."""
+    from collections import deque
+    from flow import const_val, defs_of
+    flags = set()
+    for l in range(len(b.locals)):
+        if (b.local_ty(l) or '') != 'bool':
+            continue
+        ds = defs_of(b, l)
+        if ds and all(st['k'] == 'assign' and st['rv']['k'] == 'use' and str(const_val(st['rv']['o'])) in ('true', 'false') for q, st in ds):
+            flags.add(l)
+
+    def flag_of(d):
+        neg = False
+        cur = d
+        for _ in range(4):
+            if not is_local_op(cur) or cur.get('p'):
+                return None
+            if cur['l'] in flags:
+                return cur['l'], neg
+            ds = defs_of(b, cur['l'])
+            if len(ds) != 1 or ds[0][1]['k'] != 'assign':
+                return None
+            rv = ds[0][1]['rv']
+            if rv['k'] == 'use':
+                cur = rv['o']
+            elif rv['k'] == 'un' and rv.get('op') == 'Not':
+                neg = not neg
+                cur = rv['o']
+            else:
+                return None
+        return None
+    avoid = set(avoid)
+    seen = set()
+    out = set()
+    dq = deque([(start, frozenset())])
+    seen.add((start, frozenset()))
+    while dq:
+        p, facts = dq.popleft()
+        out.add(p)
+        bi, i = p
+        if within is not None and bi not in within:
+            continue
+        nxt = []
+        if i < b.nstmts(bi):
+            st = b.blocks[bi]['stmts'][i]
+            f2 = facts
+            if st['k'] == 'assign' and not st['dst']['p'] and st['dst']['l'] in flags:
+                v = str(const_val(st['rv']['o'])) == 'true'
+                f2 = frozenset((k, x) for k, x in facts if k != st['dst']['l']) | {(st['dst']['l'], v)}
+            nxt.append(((bi, i + 1), f2))
+        else:
+            t = b.blocks[bi]['term']
+            succs = [s_ for s_ in b.succs(bi) if not b.blocks[s_]['cleanup']]
+            if t['k'] == 'switch':
+                fo = flag_of(t['d'])
+                fd = dict(facts)
+                if fo is not None and fo[0] in fd and set(dict(t['ts']).keys()) == {'0'}:
+                    val = fd[fo[0]] != fo[1]
+                    succs = [t['else'] if val else dict(t['ts'])['0']]
+            nxt = [((s_, 0), facts) for s_ in succs]
+        for n, f in nxt:
+            if n in avoid or (n, f) in seen:
+                continue
+            seen.add((n, f))
+            dq.append((n, f))
+    return out
